@@ -328,8 +328,8 @@ func Distinct
   loop 0 invariant -1 <= rangeindex && rangeindex < len(slice) && fresh(result)
   loop 0 invariant len(result) == dlen(slice, rangeindex + 1)
   loop 0 invariant forall j :: 0 <= j && j < len(result) ==> result[j] == dat(slice, rangeindex + 1, j)
-  loop 0 invariant[covers]  forall j :: 0 <= j && j <= rangeindex ==> memberOf(result, slice[j])
-  loop 0 invariant[from]    forall m :: 0 <= m && m < len(result) ==> (exists j :: 0 <= j && j <= rangeindex && slice[j] == result[m])
+  loop 0 invariant[covers]  forall j :: {slice[j]} 0 <= j && j <= rangeindex ==> memberOf(result, slice[j])
+  loop 0 invariant[from]    forall m :: {result[m]} 0 <= m && m < len(result) ==> (exists j :: 0 <= j && j <= rangeindex && slice[j] == result[m])
 
 // DistinctFunc keeps an element iff no element kept so far "equals" it (reference definition by recursion)
 spec dflen(eq func, s []E, k int) int
